@@ -332,3 +332,19 @@ func TablePacketSection(payload []byte) ([]byte, error) {
 	}
 	return payload[start:end], nil
 }
+
+// ForeignTableIDs are table ids that may share a PID with the six decoded table types and carry no data the
+// library decodes (BAT, RST, ST, TDT, DIT, SIT): a demuxer has to step over them using section_length.
+var ForeignTableIDs = []uint8{0x4a, 0x70, 0x71, 0x72, 0x7e, 0x7f}
+
+// ForeignSection frames body as a section of a table id without decoded content.
+func ForeignSection(tableID uint8, syntax, private bool, body []byte) []byte {
+	w := &BitWriter{}
+	w.U(uint64(tableID), 8)
+	w.B(syntax)
+	w.B(private)
+	w.U(3, 2)
+	w.U(uint64(len(body)), 12)
+	w.Bytes(body)
+	return w.Out()
+}
